@@ -1042,6 +1042,17 @@ func TestFmtBoundary(t *testing.T) {
 			}
 		}
 	}
+	// the formatted text is longer than the file and the file may not grow (a full disk, a quota)
+	for _, src := range []string{"X:=\"a\"\ntask t(){echo hi}\n", "#c\nA:=\"1\"\nB:=join(\"a\",\"b\")\n", "task a(\"x\",\"y\")->\"z\"{\necho one\necho two\n}\n", "# doc\ntask t() {\n\techo hi\n}\n"} {
+		n++
+		c := FmtCase{Src: src, FileLimit: true}
+		s.Eval()
+		s.Class("fmt_where_the_file_may_not_grow")
+		if f := execFmtBinary(id(), s, b, c); f != nil && !seen[f.Sig] {
+			seen[f.Sig] = true
+			s.Violation("fmtbin", f.Sig, f.Msg, f.Size, c)
+		}
+	}
 	// whole files around and beyond 1 MiB (and a few MiB): nothing bounds the length of a spokfile, and
 	// what comes last in it counts as much as what comes first
 	for _, total := range []int{1<<20 - 64, 1 << 20, 1<<20 + 64, 2<<20 + 3, 5 << 20} {
